@@ -37,8 +37,10 @@ Raise(exc) == [ok |-> FALSE, exc |-> exc]
 (***************************************************************************)
 (* Templates                                                               *)
 (***************************************************************************)
-Lit(s) == [t |-> "lit", s |-> s, p |-> <<>>]
-Fld(p) == [t |-> "fld", s |-> "", p |-> p]
+\* a field may carry a conversion: "" (plain), "r" ({{x!r}}) or "s" ({{x!s}})
+Lit(s) == [t |-> "lit", s |-> s, p |-> <<>>, cv |-> ""]
+Fld(p) == [t |-> "fld", s |-> "", p |-> p, cv |-> ""]
+FldC(p, cv) == [t |-> "fld", s |-> "", p |-> p, cv |-> cv]
 IsSingleField(tpl) == Len(tpl) = 1 /\ tpl[1].t = "fld"
 FieldsOf(tpl) == {tpl[j].p : j \in {j \in DOMAIN tpl : tpl[j].t = "fld"}}
 HasField(tpl) == FieldsOf(tpl) # {}
@@ -50,7 +52,8 @@ LitTok(s) == [t |-> "lit", s |-> s, v |-> Empty]
 \* literals and the values found; a missing value renders as the empty string
 Render(d, tpl) == [j \in DOMAIN tpl |->
                      IF tpl[j].t = "lit" THEN LitTok(tpl[j].s)
-                     ELSE IF Has(d, tpl[j].p) THEN ValTok(Get(d, tpl[j].p)) ELSE LitTok("")]
+                     ELSE IF Has(d, tpl[j].p) THEN [ValTok(Get(d, tpl[j].p)) EXCEPT !.s = tpl[j].cv]   \* s = conversion
+                     ELSE LitTok("")]
 
 (***************************************************************************)
 (* to_string: canonical token sequence, keys in the order ord              *)
@@ -79,8 +82,10 @@ GetRefC(c, d) == IF Has(d, c.path) THEN Ok(Get(d, c.path))
 \* the dictionary key notation: exactly one key at every level, otherwise LenaValueError - at whatever
 \* depth; a value that is neither a dictionary nor a string is not a key (not documented: a Lena
 \* type / value error, or the key is simply not found)
+\* key arguments of a wrong type ("kt-..."): a tuple, a list with a non-string, None, a number - LenaTypeError
 GetDOutcomes(c, d) ==
-  IF c.lvl > 0 THEN {Raise("LenaValueError")}
+  IF c.uk \in {"kt-tuple", "kt-list-nonstr", "kt-none", "kt-int"} THEN {Raise("LenaTypeError")}
+  ELSE IF c.lvl > 0 THEN {Raise("LenaValueError")}
   ELSE IF c.uk = "kd-nonstr"
     THEN {Raise("LenaTypeError"), Raise("LenaValueError"),
           IF c.dflt THEN Ok(DefaultOf(c.o)) ELSE Raise("LenaKeyError")}
